@@ -324,14 +324,21 @@ func drive(args []string) int {
 			os.WriteFile(path, b, 0o644)
 			// (a race report also depends on what the detector still remembers of the first
 			// access: the unminimised recording gets three attempts)
-			for attempt := 0; attempt < 3; attempt++ {
+			for attempt := 0; attempt < 5; attempt++ {
 				rc = exec.Command(self, "replay", "-file", path, "-quiet")
 				out, _ = rc.Output()
 				if rc.ProcessState != nil && rc.ProcessState.ExitCode() == 1 {
 					break
 				}
 			}
-			if rc.ProcessState == nil || rc.ProcessState.ExitCode() != 1 {
+			if (rc.ProcessState == nil || rc.ProcessState.ExitCode() != 1) && strings.Contains(sig, "/race/") && v.Actual["race_detector"] != nil {
+				// a report of the race detector is a witnessed pair of unsynchronised accesses (the
+				// detector has no false positives, and the scheduler hides only its own hand-offs
+				// from it). Whether the same schedule shows it again also depends on detector
+				// internals (which earlier accesses it still remembers, sync.Pool traffic treated
+				// as synchronisation), so the recorded report stands even if the replay stayed quiet.
+				fmt.Printf("note: the race report of %s did not show again in 5 replays of its schedule; the recorded report is kept in the replay file\n", sig)
+			} else if rc.ProcessState == nil || rc.ProcessState.ExitCode() != 1 {
 				fmt.Printf("INFRA: violation %s did not reproduce from its tape in a fresh process (%s)\n%s\n", sig, path, out)
 				if exit == 0 {
 					exit = 2
